@@ -1,7 +1,7 @@
 --------------------------- MODULE TraceFuncCall ---------------------------
 (* Trace validation for C16: every call made by harness/h_gsl.cc to a function *)
 (* pointer registered by the real amplgsl.cc must be a run of the FuncCall     *)
-(* machine (Case -> Ret) whose outcome violates no clause.  Hang / Crash mean  *)
+(* machine (Case -> Ret(nan) -> Ret(val)) whose outcome violates no clause.  Hang / Crash mean  *)
 (* the call did not return.  A line the spec cannot explain is printed as BAD  *)
 (* and validation continues.                                                   *)
 EXTENDS FuncCall, Json, IOUtils, TLC
@@ -14,17 +14,17 @@ Step == l' = l + 1
 
 CaseOf(e) == [id |-> e.id, fn |-> e.fn, ar |-> e.ar, ip |-> e.ip, rnd |-> e.rnd, str |-> e.str,
               cls |-> e.cls, mode |-> e.mode, digc |-> e.digc]
-OutOf(e) == [val |-> e.val, err |-> e.err, dn |-> e.dn, hn |-> e.hn, det |-> e.det]
+OutOf(e) == [val |-> e.val, err |-> e.err, dn |-> e.dn, hn |-> e.hn, du |-> e.du, hu |-> e.hu, det |-> e.det]
 
 TCase == /\ E.e = "Case" /\ Step
          /\ s' = Issue(CaseOf(E))
          /\ \/ s.pc = "idle" /\ WellFormedCase(CaseOf(E))
             \/ Bad([k |-> "case", pc |-> s.pc])
 TRet == /\ E.e = "Ret" /\ Step
-        /\ IF CanReturn(s, E.id)
-             THEN /\ s' = Idle
+        /\ IF CanReturn(s, E.id, E.fill)
+             THEN /\ s' = Return(s)
                   /\ LET wrong == Violated(s.c, OutOf(E))
-                     IN wrong = {} \/ Bad([k |-> "outcome", wrong |-> wrong])
+                     IN wrong = {} \/ Bad([k |-> "outcome", wrong |-> wrong, fill |-> E.fill])
              ELSE s' = s /\ Bad([k |-> "order", ev |-> "Ret"])
 TDead == /\ E.e \in {"Hang", "Crash"} /\ Step
          /\ s' = Idle
